@@ -78,31 +78,32 @@ type UpdateCfg struct {
 
 // Cfg describes one translation-stack run.
 type Cfg struct {
-	Log2Page    uint64      `json:"log2_page"`
-	UseAT       bool        `json:"use_at"` // memory-level requests through an address translator
-	ATReqPerCyc int         `json:"at_req_per_cycle,omitempty"`
-	ATPortBuf   int         `json:"at_port_buf,omitempty"`
-	TLBs        []TLBCfg    `json:"tlbs"`
-	MMUCache    bool        `json:"mmu_cache"`
-	MCBlocks    int         `json:"mc_blocks,omitempty"`
-	MCLevels    int         `json:"mc_levels,omitempty"`
-	MCLatency   uint64      `json:"mc_latency,omitempty"`
-	MCPortBuf   int         `json:"mc_port_buf,omitempty"`
-	GMMU        bool        `json:"gmmu"`
-	GMMULatency int         `json:"gmmu_latency,omitempty"`
-	GMMUDevice  uint64      `json:"gmmu_device,omitempty"`
-	MMULatency  int         `json:"mmu_latency"`
-	MMUInflight int         `json:"mmu_inflight"`
-	MMUPortBuf  int         `json:"mmu_port_buf"`
-	AutoAlloc   bool        `json:"auto_alloc"`
-	PlainPT     bool        `json:"plain_pt,omitempty"`   // the MMU gets the page table behind a minimal vm.PageTable
-	DefaultPT   bool        `json:"default_pt,omitempty"` // no page table injected: the MMU builds its own (real simulations)
-	Pages       []PageCfg   `json:"pages"`
-	Reqs        []VReq      `json:"reqs"`
-	MemDelay    int         `json:"mem_delay"`
-	Updates     []UpdateCfg `json:"updates,omitempty"`
-	Steps       []Step      `json:"steps,omitempty"` // free-form control script (C18 / C27 resets)
-	EventCap    int         `json:"event_cap"`
+	Log2Page       uint64      `json:"log2_page"`
+	UseAT          bool        `json:"use_at"` // memory-level requests through an address translator
+	ATReqPerCyc    int         `json:"at_req_per_cycle,omitempty"`
+	ATPortBuf      int         `json:"at_port_buf,omitempty"`
+	TLBs           []TLBCfg    `json:"tlbs"`
+	MMUCache       bool        `json:"mmu_cache"`
+	MCBlocks       int         `json:"mc_blocks,omitempty"`
+	MCLevels       int         `json:"mc_levels,omitempty"`
+	MCLatency      uint64      `json:"mc_latency,omitempty"`
+	MCPortBuf      int         `json:"mc_port_buf,omitempty"`
+	GMMU           bool        `json:"gmmu"`
+	GMMULatency    int         `json:"gmmu_latency,omitempty"`
+	GMMUDevice     uint64      `json:"gmmu_device,omitempty"`
+	MMULatency     int         `json:"mmu_latency"`
+	MMUInflight    int         `json:"mmu_inflight"`
+	MMUPortBuf     int         `json:"mmu_port_buf"`
+	AutoAlloc      bool        `json:"auto_alloc"`
+	PlainPT        bool        `json:"plain_pt,omitempty"`   // the MMU gets the page table behind a minimal vm.PageTable
+	DefaultPT      bool        `json:"default_pt,omitempty"` // no page table injected: the MMU builds its own (real simulations)
+	Pages          []PageCfg   `json:"pages"`
+	Reqs           []VReq      `json:"reqs"`
+	MemDelay       int         `json:"mem_delay"`
+	MemAcceptEvery int         `json:"mem_accept_every,omitempty"` // >1: the memory below the address translator takes one request every k cycles
+	Updates        []UpdateCfg `json:"updates,omitempty"`
+	Steps          []Step      `json:"steps,omitempty"` // free-form control script (C18 / C27 resets)
+	EventCap       int         `json:"event_cap"`
 }
 
 // Step is one control request (same shape as the memory-side driver's).
